@@ -475,6 +475,13 @@ func Fixed() []*Scn {
 		// a string ended by ESC, then a second ESC beginning ESC \; the same with a C0 or a sequence in between
 		"\x1b]a\x1b\x1b\\x", "\x1bPq\x1b\x1b\\x", "\x1b_a\x1b\x1b\\x", "\x1bXa\x1b\x1b\\x", "\x1b^a\x1b\x1b\\x", "\x1bP1\x1b\x1b\\x",
 		"\x1bP1:q\x1b\x1b\\x", "\x1b]a\x1b\n\\", "\x1b]a\x1bA\x1b\\", "\x1b\x1b\\", "\x1b]a\x1b\x1b\x1b\\",
+		// a device control string with a parameter beyond every machine integer between two ordinary ones (that one
+		// value is open, its neighbours and the number of parameters are not), alone, first, last; the values around
+		// the largest 64-bit integer; the same parameter bytes in a control sequence
+		"\x1bP1;99999999999999999999;3q#data\x1b\\X", "\x1bP99999999999999999999q\x1b\\", "\x1bP99999999999999999999;2$q\x1b\\",
+		"\x1bP1;2;340282366920938463463374607431768211456+q\x1b\\", "\x1bP1;999999999999999999;3q\x1b\\",
+		"\x1bP1;9223372036854775807;3q\x1b\\", "\x1bP1;9223372036854775808;3q\x1b\\", "\x1bP;18446744073709551616;q\x18",
+		"\x1bP1;00000000000000000000007;3q\x1b\\", "\x1b[1;99999999999999999999;3m",
 	} {
 		out = append(out, mk("fixed", []byte(s), nil))
 		if len(s) > 2 {
